@@ -203,15 +203,19 @@ def gen_cases(ck):
                 follow = dict(k="r", a=DATA + 32, n=48)
                 ftoks = [5, -1, p + 1] + [0, 1] * p + [1, 0]
                 w, wt, optoks = scenario(6, ftoks, [dict(k="retry", n=rc), op, dict(k="retry", n=3), follow])
-                good = p + 1 <= rc
+                # p pending acknowledges = p retries: within the configured count the final acknowledge must be
+                # awaited (p < rc), beyond it the operation must fail (p > rc); p = rc is left to the implementation
+                # (the code counts receives, another reading counts retries) - only true data may come with Ok
+                good, bad = p < rc, p > rc
                 exp = [("ok", None), ("ok", None)]
                 if op["k"] == "r":
-                    exp.append(("ok", show_data(w.read(op["a"], op["n"]))) if good else ("err",))
+                    data = show_data(w.read(op["a"], op["n"]))
+                    exp.append(("ok", data) if good else ("err",) if bad else ("ok-or-err", data))
                 else:
-                    exp.append(("ok", None) if good else ("err",))
+                    exp.append(("ok", None) if good else ("err",) if bad else ("any",))
                     w.write(op["a"], pattern(op["n"], op["seed"]))      # the device applied the write on reception
                 exp += [("ok", None), ("any",)]
-                add("retry-count-%d/pending-x%d/%s" % (rc, p, op["k"]), w, wt, optoks, exp, retry=max(rc, 3))
+                add("retry-count-%d/pending-x%d/%s" % (rc, p, op["k"]), w, wt, optoks, exp, retry=max(rc + 1, 3))
     # faults at every transaction of open (6) and of a 3-chunk read and a 3-chunk write
     kinds = [("recv-err", [5, -1, 1, 3, 0]), ("timeout", [5, -1, 0]), ("status", [5, -1, 1, 1, 1, 1, 4, 0x8006]),
              ("short", [5, -1, 1, 1, 1, 2, 13]), ("wrong-id", [5, -1, 1, 1, 1, 1, 10, 0x7777]),
